@@ -22,6 +22,8 @@ from simkit.runner import Engine, Result
 
 P = "C10"
 KEYS = ["left", "right", "up", "down", "home", "end", "backspace", "delete", "enter", "tab", "f5", "ctrl x", "page up", "esc"]
+# characters with the Unicode digit / decimal property that are not in any numeric editor's documented alphabet
+NON_ASCII_DIGITS = ["²", "３", "٣", "①", "é"]
 CHARS = list("ab Z9.-") + ["é", "日", "本", "́", "\t", "𐍈"]  # (U+10348: four bytes in UTF-8, one column)
 
 
@@ -781,7 +783,7 @@ class EditEngine(Engine):
         for _ in range(rng.randint(1, 40)):
             q = rng.random()
             if q < 0.28:
-                ch = rng.choice([c for c in CHARS if (self._wide or c not in "日本") and (self._comb or c != "\u0301")]) if cfg["kind"] == "edit" else rng.choice(list("0123456789-.,aF x"))
+                ch = rng.choice([c for c in CHARS if (self._wide or c not in "日本") and (self._comb or c != "\u0301")]) if cfg["kind"] == "edit" else rng.choice([*"0123456789-.,aF x", *NON_ASCII_DIGITS])
                 ops.append({"op": "key", "key": ch})
             elif q < 0.62:
                 ops.append({"op": "key", "key": rng.choice(KEYS)})
